@@ -13,7 +13,8 @@ ANCHORS = ['numdifftools.extrapolation:Richardson._r_matrix', 'numdifftools.extr
            'numdifftools.extrapolation:Richardson.__call__', 'numdifftools.extrapolation:convolve',
            'numdifftools.extrapolation:Richardson._estimate_error']
 MIN_COUNTERS = dict(quick={'moments_asserted': 3000, 'slots_asserted': 10000, 'column_independence_asserted': 1000,
-                           'short_sequence_cases': 300, 'complex_ratio_cases': 800},
+                           'short_sequence_cases': 300, 'complex_ratio_cases': 800,
+                           'object_reused_after_other_length': 2500},
                     thorough={'moments_asserted': 100000, 'slots_asserted': 500000})
 RULE = ('step_ratio log-uniform in (1.05, 100], 30 % complex r*exp(i theta); spacing 1..4, order 1..8, '
         'num_terms 0..5, N 1..20, 1-d or 1..4 columns; L and a_j over 6 decades; sequences generated in exact '
@@ -71,6 +72,22 @@ def run_case(case, ctx):
         ctx.count('short_sequence_cases')
     try:
         rich = Richardson(step_ratio=rho, step=spacing, order=order, num_terms=T)
+        if case['seed'] % 2:
+            # history: the same extrapolator has already served a sequence of another length (shorter than
+            # num_terms + 1 in half of the cases); nothing of that may survive into the call that is judged
+            wrng = np.random.default_rng(case['seed'] + 1)
+            N0 = int(wrng.integers(1, max(T, 1) + 1)) if wrng.random() < 0.5 else int(wrng.integers(1, 21))
+            if N0 == N:
+                N0 = N + 1
+            ctx.count('object_reused_after_other_length')
+            try:
+                rich.rule(N0)
+                s0 = wrng.normal(size=N0) * (1 if not cplx else 1 + 0.5j)
+                h0w = np.array([0.7 * abs(rho) ** -k for k in range(N0)], dtype=s0.dtype)
+                rich(s0, h0w)
+            except Exception as exc:
+                ctx.reject('call_raised', observed=repr(exc), detail=dict(N=N0, used=min(T, N0 - 1), warm_up=True))
+                return
         w = np.asarray(rich.rule(N))
     except Exception as exc:
         ctx.reject('rule_raised', observed=repr(exc))
